@@ -34,63 +34,74 @@ def lookup (g : Graph) (name : Bytes) : Res (Option Nat) :=
   | .panic m => .panic m
   | _ => .panic "canon"
 
-def wantAll (g : Graph) : S → List Nat → Res S
-  | s, [] => .ok s
+def wantAll (g : Graph) : S → List Nat → WR Unit
+  | s, [] => .ok () s
   | s, f :: fs =>
     match want g s f with
-    | .ok s' => wantAll g s' fs
+    | .ok _ s' => wantAll g s' fs
     | r => r
 
 /-- Resolve the command-line names, in order; an unknown name is an error unless `adopt`. -/
-def wantTargets (g : Graph) (a : Args) : S → List Bytes → Res S
-  | s, [] => .ok s
+def wantTargets (g : Graph) (a : Args) : S → List Bytes → WR Unit
+  | s, [] => .ok () s
   | s, n :: ns =>
     match lookup g n with
     | .ok none =>
       if a.adopt then wantTargets g a s ns
-      else .err ("unknown path requested: " ++ stringOfBytes n)
+      else .err ("unknown path requested: " ++ stringOfBytes n) s
     | .ok (some t) =>
       if t = a.manifest then wantTargets g a s ns
       else
         match want g s t with
-        | .ok s' => wantTargets g a s' ns
+        | .ok _ s' => wantTargets g a s' ns
         | r => r
-    | .panic m => .panic m
-    | _ => .panic "lookup"
+    | .panic m => .bad m
+    | _ => .bad "lookup"
 
 def ofRun (r : RunResult) : Outcome :=
   match r with
   | .ok _ => .failed | .err m => .err m | .bug => .bug | .panic m => .panic m | .stuck => .stuck | .fuel => .fuel
 
-def ofRes {α} (r : Res α) : Outcome :=
-  match r with
-  | .ok _ => .panic "ofRes" | .err m => .err m | .panic m => .panic m | _ => .panic "internal"
 
-/-- `run::build` for one loaded graph.  Returns the final scheduler state (with its trace). -/
+/-- A fresh `Work` (`BuildStates::new`, `Runner::new`) right after `load::read`. -/
+def fresh (a : Args) : S := { init a.pools a.failuresLeft with trace := [Ev.load] }
+
+/-- Target resolution + second `Work::run` (what follows the manifest phase in `run::build`). -/
+def phase2 (g : Graph) (a : Args) (c : Choices) (s2 : S) (perms : List (List Nat)) (fin : List (Nat × Term))
+    (tasksBefore : Nat) : S × Outcome :=
+  let wanted : WR Unit :=
+    if !a.targets.isEmpty then wantTargets g a s2 a.targets
+    else if !a.defaults.isEmpty then wantAll g s2 a.defaults
+    else wantAll g s2 ((List.range g.nFiles).filter (· ≠ a.manifest))
+  match wanted with
+  | .ok _ s3 =>
+    let r2 := runLoop g a.par c (runFuel g) s3 perms fin
+    match r2.result with
+    | .ok true => (r2.s, .done (tasksBefore + r2.s.tasksRun))
+    | r => (r2.s, ofRun r)
+  | .err m s3 => (s3, .err m)
+  | .bad m => (s2, .panic m)
+
+/-- `run::build` up to a possible reload.  Returns the scheduler state (with its trace) and
+    `.reload n` when the manifest phase ran `n > 0` commands. -/
 def build (g : Graph) (a : Args) (c : Choices) : S × Outcome :=
-  let s0 := init a.pools a.failuresLeft
+  let s0 := fresh a
   -- phase 1: bring the manifest up to date
   match want g s0 a.manifest with
-  | .ok s1 =>
+  | .ok _ s1 =>
     let r1 := runLoop g a.par c (runFuel g) s1 c.perms c.finishes
     match r1.result with
     | .ok true =>
       if r1.s.tasksRun ≠ 0 then (r1.s, .reload r1.s.tasksRun)
-      else
-        -- phase 2 on the same Work
-        let s2 := r1.s
-        let wanted : Res S :=
-          if !a.targets.isEmpty then wantTargets g a s2 a.targets
-          else if !a.defaults.isEmpty then wantAll g s2 a.defaults
-          else wantAll g s2 ((List.range g.nFiles).filter (· ≠ a.manifest))
-        match wanted with
-        | .ok s3 =>
-          let r2 := runLoop g a.par c (runFuel g) s3 r1.perms r1.finishes
-          match r2.result with
-          | .ok true => (r2.s, .done r2.s.tasksRun)
-          | r => (r2.s, ofRun r)
-        | r => (s2, ofRes r)
+      else phase2 g a c r1.s r1.perms r1.finishes 0
     | r => (r1.s, ofRun r)
-  | r => (s0, ofRes r)
+  | .err m s1 => (s1, .err m)
+  | .bad m => (s0, .panic m)
+
+/-- The part of `run::build` after the manifest was regenerated: a fresh `Work` on the reloaded
+    graph; the manifest itself is not wanted again. -/
+def buildReloaded (g : Graph) (a : Args) (c : Choices) (tasksBefore : Nat) : S × Outcome :=
+  let s0 := fresh a
+  phase2 g a c s0 c.perms c.finishes tasksBefore
 
 end N2V.Run
